@@ -1,4 +1,4 @@
-CONSTANTS PageM <- Page53 Formats = {"RGBA32_LE", "PAL8", "YUV420"} Strides = {"exact", "plus5"} MaxDraws = 2 Clip = TRUE
+CONSTANTS PageM <- Page53 Formats = {"RGBA32_LE", "PAL8", "YUV420"} Strides = {"exact", "plus5"} MaxDraws = 1 Clip = TRUE
 SPECIFICATION Spec
 INVARIANTS Faithful
 PROPERTIES Frame NothingIfUnsupported ImplementsPost
